@@ -18,6 +18,7 @@ EXPLANATION = (
     "ModuleGraph::resolve), and arm tables of the lookup functions (T8)."
 )
 NOT_DECIDED = "agreement of each lookup's result with the walk for all graphs; idempotence of resolve for chains longer than its internal cap"
+CONFIGS = ["default", "nofastcheck"]  # thorough tier also analyses the build without fast_check / symbols
 ASSUMPTIONS = ["HashSet::insert returns false exactly when the element is present"]
 
 
